@@ -101,13 +101,16 @@ def family(rng, kind='dna', nseq=None, length=None, small=True):
     return fam, seqs
 
 def names_for(rng, n, style=None):
-    style = style or rng.choice(['plain', 'plain', 'punct', 'long', 'prefix'])
+    style = style or rng.choice(['plain', 'plain', 'punct', 'long', 'prefix', 'marker'])
     out = []
     for i in range(n):
         if style == 'plain':
             out.append('seq%d' % (i + 1))
         elif style == 'punct':
             out.append('%s|%d_%s.x-%d' % (rng.choice(['sp', 'tr', 'gi']), rng.below(100000), rand_seq(rng, 'ABCXYZ', 3), i))
+        elif style == 'marker':      # names built around the words the format sniffer and the header parsers look for
+            out.append(rng.choice(['CLUSTALW_ref_%d', 'my_CLUSTAL.run_%d', 'CLUSTAL_O_%d', 'PileUp.MSF_%d', 'MSF-%d', 'multiple_sequence_alignment_%d',
+                                   'Name_%d', 'Len_%d', 'AA_MULTIPLE_ALIGNMENT_%d', 'Check_%d..']) % i)
         elif style == 'long':
             out.append('n%d_' % i + rand_seq(rng, 'abcdefghij0123456789_', rng.range(30, 120)))
         else:
